@@ -10,7 +10,7 @@ from icalendar.parser import Contentline, Parameters
 from icalendar.prop import vCalAddress, vInline, vText, vUri
 from vcheck.hcommon import pin, pinned, tier
 
-PN_MAX = tier(1, 2)
+PN_MAX = 1
 VN_MAX = tier(2, 3)
 INJ_MAX = tier(3, 4)
 
